@@ -28,7 +28,7 @@ func c18ErrUse(errv ssa.Value, ref ssa.Instruction) (string, *ssa.Call) {
 	case *ssa.Store:
 		// stored into a varargs array for fmt/log
 		if ia, ok := x.Addr.(*ssa.IndexAddr); ok {
-			if _, ok := ia.X.(*ssa.Alloc); ok && x.Val == errv {
+			if _, ok := ia.X.(*ssa.Alloc); ok {
 				return "passive", nil
 			}
 		}
@@ -44,7 +44,7 @@ func c18ErrUse(errv ssa.Value, ref ssa.Instruction) (string, *ssa.Call) {
 		case "os.IsNotExist", "os.IsPermission", "os.IsTimeout":
 			return "other", x
 		case "errors.Is":
-			if len(x.Call.Args) == 2 && x.Call.Args[0] == errv {
+			if len(x.Call.Args) == 2 && c18Root(x.Call.Args[0]) == errv {
 				if u, ok := x.Call.Args[1].(*ssa.UnOp); ok && u.Op == token.MUL {
 					if g, ok := u.X.(*ssa.Global); ok && g.Pkg != nil {
 						pk := g.Pkg.Pkg.Path()
@@ -94,7 +94,7 @@ func c18StaleAnalysis(p *Prog, fn *ssa.Function, o *c18Op, ops []*c18Op) c18Stal
 	}
 	var calls []test
 	if errv != nil {
-		for _, ref := range refs(errv) {
+		for _, ref := range c18Refs(errv) {
 			kind, call := c18ErrUse(errv, ref)
 			switch kind {
 			case "opaque":
